@@ -281,7 +281,10 @@ def check_refusal_atomic(ck, it, func, s0=0, r0=0, fresh_from=None, rule="G-REFU
         rf = set(r["facts"])
         first, last = {}, {}
         for st in stores:
-            if st["seq"] > r["seq"]:
+            ff = st.get("finally_for")
+            if ff is not None and r["seq"] not in ff:
+                continue        # stored by a finally suite while another raise was propagating
+            if st["seq"] > r["seq"] and ff is None:
                 continue
             if fresh_from is not None and isinstance(st["oid"], int) and st["oid"] >= fresh_from \
                     and it.obj_info.get(st["oid"], {}).get("fresh", False):
